@@ -39,5 +39,17 @@ def listy(x: fp.Real, y: fp.Real) -> fp.Real:
     return r
 
 
+@fp.fpy
+def lits(x: fp.Real, y: fp.Real) -> fp.Real:
+    # operations whose operands are all literals are rounded operations like any other
+    a = 1 / 3
+    b = x + a
+    c = fp.sqrt(2) * y
+    acc = b + c
+    for _i in range(2):
+        acc = acc + 1 / 3
+    return acc
+
+
 # name -> number of rounded operations per evaluation
-PROGS = {'chain3': 3, 'loop4': 8, 'root2': 4, 'listy': 6}
+PROGS = {'chain3': 3, 'loop4': 8, 'root2': 4, 'listy': 6, 'lits': 9}
